@@ -17,6 +17,7 @@ import (
 	"github.com/vimeo/dials/tagformat/caseconversion"
 	"github.com/vimeo/dials/transform"
 
+	"verifharness/conc"
 	"verifharness/fw"
 	"verifharness/gen"
 )
@@ -428,6 +429,54 @@ func c20BlankEagerWatcher(w *fw.Worker, i int, r *fw.Rand) {
 	w.Distinct("blank-eager-watcher")
 }
 
+// c20BlankAbandoned: a SetSource whose caller gives up while the monitor is inside Verify for its value. The monitor
+// finishes that update; the Blank (and the monitor) must stay usable: the next SetSource is installed.
+func c20BlankAbandoned(w *fw.Worker, i int, r *fw.Rand) {
+	desc := map[string]any{"mode": "blank-setsource-abandoned-inside-verify"}
+	w.BeginDesc(i, "blank-abandoned")
+	c, err := c07Start(r, true, conc.Opts{NSrc: 2})
+	if err != nil {
+		w.Violation(i, "config-failed", err.Error(), desc)
+		return
+	}
+	e := c.e
+	defer e.Stop()
+	l1, l2 := e.RandLayer(r, 0, 0), e.RandLayer(r, 0, 0)
+	abandoned, _ := e.AbandonFnInVerify(func(ctx context.Context) error {
+		return c.blank.SetSource(ctx, &conc.Src{Name: "inner-1", Init: l1})
+	})
+	if !abandoned {
+		w.Inconclusive(i, "Verify was not reached for the first SetSource")
+		return
+	}
+	w.Count("blank_setsource_abandoned_inside_verify", 1)
+	ctx2, cancel := context.WithTimeout(e.S.Ctx, 5*time.Second)
+	defer cancel()
+	ret := make(chan error, 1)
+	go func() { ret <- c.blank.SetSource(ctx2, &conc.Src{Name: "inner-2", Init: l2}) }()
+	var serr error
+	select {
+	case serr = <-ret:
+	case <-time.After(10 * time.Second):
+		stuckVerdict(w, i, "Blank.SetSource after an abandoned SetSource", desc)
+		return
+	}
+	if serr != nil {
+		if errors.Is(serr, context.DeadlineExceeded) {
+			stuckVerdict(w, i, "Blank.SetSource (5s context) after an abandoned SetSource", desc)
+			return
+		}
+		w.Violation(i, "blank-setsource-failed-after-an-abandoned-one", serr.Error(), desc)
+		return
+	}
+	want := l2.Apply(conc.DefaultsFP())
+	if got := conc.FPOf(e.D.View()); got != want {
+		w.Violation(i, "view-not-the-last-setsource-after-an-abandoned-one", fmt.Sprintf("view %+v, want %+v", got, want), desc)
+		return
+	}
+	w.Distinct("blank-abandoned")
+}
+
 // c20BlankReuse: a Blank that served one Dials (and was given a watching inner source) is handed to a second Config
 // after the first was shut down. The second Config may refuse it; if it accepts it, the wrapped watcher's updates must
 // reach the second config like a native watcher's would.
@@ -515,6 +564,8 @@ func runC20(w *fw.Worker) {
 			c20BlankReuse(w, i, r)
 		case i%24 == 19:
 			c20BlankEagerWatcher(w, i, r)
+		case i%24 == 1:
+			c20BlankAbandoned(w, i, r)
 		case i%24 == 7:
 			// a Done that expired undelivered does not use up the Blank's right (and duty) to forward the next one
 			blankDoneRetry(w, i, r, "C20")
